@@ -19,6 +19,7 @@
 #include "st_format.h"
 #include "early_battery.h"
 #include <cmath>
+#include <cfenv>
 #include <cfloat>
 #include <memory>
 
@@ -174,6 +175,40 @@ static std::string abort_sig(const vf::Outcome &o)
     }
     return strf("abort:%s:%s", file.c_str(), msg.c_str());
 }
+
+
+// A user-defined sink (a public extension point: derive from ST::format_writer, run ST::apply_format): its append / append_char may
+// themselves format numbers - a log sink that timestamps every piece, say.  The outer rendering must be unaffected.
+struct ReentrantSink : ST::format_writer {
+    std::string collected;
+    int depth = 0;
+    explicit ReentrantSink(const char *f) : ST::format_writer(f) {}
+    void noise()
+    {
+        if (depth) return;
+        ++depth;
+        ST::string a = ST::format("{.66f}|{}|{.80e}", 0.5, 42, 2.5f), b = ST::string::from_double(1e200, 'f');
+        ST::string_stream ss;
+        ss << 1.0 / 7 << -3.5f;
+        (void)a;
+        (void)b;
+        --depth;
+    }
+    ST::format_writer &append(const char *data, size_t size) override
+    {
+        noise();
+        collected.append(data, size);
+        noise();
+        return *this;
+    }
+    ST::format_writer &append_char(char ch, size_t count = 1) override
+    {
+        noise();
+        collected.append(count, ch);
+        noise();
+        return *this;
+    }
+};
 
 // one ST::format call with a float or double argument against snprintf + the padding model
 template <class FT>
@@ -659,6 +694,87 @@ static void build(vf::Plan &plan, const vf::Opts &o)
                        int p = BIGP[vf::take(i, NBIGP)];
                        return strf("precision %d, notation #%u", p, (unsigned)vf::take(i, 4));
                    });
+    }
+    // the floating-point rounding mode of the calling thread: glibc's printf family honours it, and "equals the C library rendering"
+    // means the rendering the C library gives under the same mode
+    {
+        static const int MODES[4] = {FE_UPWARD, FE_DOWNWARD, FE_TOWARDZERO, FE_TONEAREST};
+        static const double RV[8] = {0.1, 1.0 / 3, 2.0 / 3, -0.1, 123456.789, 1e-7 / 3, 5e-324, 0.5};
+        plan.stage("rounding modes {upward, downward, toward zero, nearest} x 8 values x {from_double e/f/g, from_float, stream <<, format {}/{.3f}/{e}} against snprintf under the same mode",
+                   4 * 8,
+                   [](uint64_t i, Ctx &c) {
+                       int mode = MODES[i / 8];
+                       double v = RV[i % 8];
+                       std::vector<std::pair<std::string, std::string>> rows;  // (what, got|want)
+                       vf::Outcome o = vf::guard([&] {
+                           fesetround(mode);
+                           auto want = [&](const char *f, double x) {
+                               char b[512];
+                               snprintf(b, sizeof b, f, x);
+                               return std::string(b);
+                           };
+                           auto add = [&](const char *what, const ST::string &got, const std::string &w) {
+                               rows.push_back({what, std::string(got.c_str(), got.size()) + "\x01" + w});
+                           };
+                           add("from_double(v)", ST::string::from_double(v), want("%g", v));
+                           add("from_double(v,'e')", ST::string::from_double(v, 'e'), want("%e", v));
+                           add("from_double(v,'f')", ST::string::from_double(v, 'f'), want("%f", v));
+                           add("from_float(v)", ST::string::from_float((float)v), want("%g", (double)(float)v));
+                           {
+                               ST::string_stream ss;
+                               ss << v;
+                               add("string_stream<<double", ss.to_string(), want("%g", v));
+                           }
+                           {
+                               ST::string_stream ss;
+                               ss << (float)v;
+                               add("string_stream<<float", ss.to_string(), want("%g", (double)(float)v));
+                           }
+                           add("format({})", ST::format("{}", v), want("%g", v));
+                           add("format({.3f})", ST::format("{.3f}", v), want("%.3f", v));
+                           add("format({e})", ST::format("{e}", v), want("%e", v));
+                           add("format({.12})", ST::format("{.12}", v), want("%.12g", v));
+                           fesetround(FE_TONEAREST);
+                       });
+                       fesetround(FE_TONEAREST);
+                       VF_COUNT("validated");
+                       if (!o.ok()) c.fail(strf("rounding-mode:%s", vf::outkind_name(o.kind)), o.str());
+                       for (auto &r : rows) {
+                           size_t sep = r.second.find('\x01');
+                           std::string got = r.second.substr(0, sep), w = r.second.substr(sep + 1);
+                           if (got != w)
+                               c.fail(strf("rounding-mode:%s:differs-from-snprintf-under-the-same-mode", r.first.c_str()),
+                                      strf("mode #%u value %s: %s returned %s, snprintf gives %s", (unsigned)(i / 8), dstr(v).c_str(), r.first.c_str(), got.c_str(), w.c_str()));
+                       }
+                       c.nontrivial();
+                   },
+                   [](uint64_t i) { return strf("rounding mode #%u, value #%u", (unsigned)(i / 8), (unsigned)(i % 8)); });
+    }
+    // a user-defined sink whose append / append_char format numbers themselves (re-entrancy from the sink side)
+    {
+        static const char *const RF[6] = {"{100.70f}", "{>90.66f}|", "{<90.66e}|", "{}", "{_*120.80f}", "x{.64f}y{>80}z"};
+        static const double RD[3] = {1.0 / 3, -2.5e-7, 1e100};
+        plan.stage("user-defined format_writer whose append / append_char format numbers themselves: 6 fields x 3 values, collected text equals ST::format", 6 * 3,
+                   [](uint64_t i, Ctx &c) {
+                       const char *f = RF[i % 6];
+                       double v = RD[i / 6];
+                       std::string got, want;
+                       vf::Outcome o = vf::guard([&] {
+                           ST::string w = (i % 6 == 5) ? ST::format(f, v, 7) : ST::format(f, v);
+                           want.assign(w.c_str(), w.size());
+                           ReentrantSink sink(f);
+                           if (i % 6 == 5) ST::apply_format(sink, v, 7);
+                           else ST::apply_format(sink, v);
+                           got = sink.collected;
+                       });
+                       VF_COUNT("validated");
+                       if (!o.ok()) c.fail(strf("reentrant-sink:%s", vf::outkind_name(o.kind)), o.str());
+                       else if (got != want)
+                           c.fail("reentrant-sink:text-differs-from-ST::format", strf("format %s of %s through a sink that formats numbers in append/append_char: %s, ST::format gives %s", f,
+                                                                                     dstr(v).c_str(), vf::vis(got, 120).c_str(), vf::vis(want, 120).c_str()));
+                       c.nontrivial();
+                   },
+                   [](uint64_t i) { return strf("re-entrant sink case %u", (unsigned)i); });
     }
     plan.stage("from:all-256-letters-x-24-values-x{from_double,from_float}", 256ull * NPADVALS * 2,
                [](uint64_t i, Ctx &c) {
